@@ -29,7 +29,14 @@ impl Minimiser<'_> {
         out.violations.iter().any(|v| v.class == self.class)
     }
 
+    fn exhausted(&self) -> bool {
+        self.execs >= self.budget || std::time::Instant::now() > self.deadline
+    }
+
     fn try_apply(&mut self, s: &mut Scenario, cand: Scenario) -> bool {
+        if self.exhausted() {
+            return false;
+        }
         if self.fails(&cand) {
             *s = cand;
             true
@@ -66,6 +73,9 @@ impl Minimiser<'_> {
         // big scenarios first lose whole chunks of records, terms (with dependants) and links
         if s.facts.size() > 200 {
             for k in KINDS {
+                if self.exhausted() {
+                    break;
+                }
                 self.shrink_chunks(&mut s, &|x| x.facts.recs(k).len(), &|x, a, b| {
                     x.facts.recs_mut(k).drain(a..b);
                 });
@@ -74,12 +84,12 @@ impl Minimiser<'_> {
                 let keep_std = x.drop_terms.is_empty() && x.prop != "C15";
                 let root = x.sub.as_ref().map(|q| q.root);
                 let ids: Vec<u32> = x.facts.terms[a..b].iter().map(|t| t.id).filter(|i| !(keep_std && (*i == 1 || *i == 118)) && Some(*i) != root).collect();
-                for id in ids {
-                    x.facts.remove_term(id);
-                    if let Some(sub) = &mut x.sub {
-                        if sub.leaves.len() > 1 {
-                            sub.leaves.retain(|l| *l != id);
-                        }
+                let set: std::collections::BTreeSet<u32> = ids.into_iter().collect();
+                x.facts.remove_terms(&set);
+                if let Some(sub) = &mut x.sub {
+                    let keep: Vec<u32> = sub.leaves.iter().copied().filter(|l| !set.contains(l)).collect();
+                    if !keep.is_empty() {
+                        sub.leaves = keep;
                     }
                 }
             });
@@ -93,11 +103,17 @@ impl Minimiser<'_> {
         let mut progress = true;
         let mut rounds = 0;
         while progress && rounds < 6 && self.execs < self.budget {
+            if self.exhausted() {
+                break;
+            }
             progress = false;
             rounds += 1;
             // replicas
             let mut i = 0;
             while i < s.replicas.len() {
+                if self.exhausted() {
+                    break;
+                }
                 if s.replicas.len() > 1 {
                     let mut c = s.clone();
                     c.replicas.remove(i);
@@ -133,6 +149,9 @@ impl Minimiser<'_> {
             if let Some(sub) = s.sub.clone() {
                 let mut j = 0;
                 while j < s.sub.as_ref().map_or(0, |x| x.leaves.len()) {
+                    if self.exhausted() {
+                        break;
+                    }
                     if s.sub.as_ref().unwrap().leaves.len() > 1 {
                         let mut c = s.clone();
                         c.sub.as_mut().unwrap().leaves.remove(j);
@@ -148,6 +167,9 @@ impl Minimiser<'_> {
             // ops / edits
             let mut j = 0;
             while j < s.ops.len() {
+                if self.exhausted() {
+                    break;
+                }
                 let mut c = s.clone();
                 c.ops.remove(j);
                 if self.try_apply(&mut s, c) {
@@ -158,6 +180,9 @@ impl Minimiser<'_> {
             }
             let mut j = 0;
             while j < s.edits.len() {
+                if self.exhausted() {
+                    break;
+                }
                 let mut c = s.clone();
                 c.edits.remove(j);
                 if self.try_apply(&mut s, c) {
@@ -168,8 +193,14 @@ impl Minimiser<'_> {
             }
             // records
             for k in KINDS {
+                if self.exhausted() {
+                    break;
+                }
                 let mut j = 0;
                 while j < s.facts.recs(k).len() {
+                    if self.exhausted() {
+                        break;
+                    }
                     let mut c = s.clone();
                     c.facts.recs_mut(k).remove(j);
                     if self.try_apply(&mut s, c) {
@@ -178,6 +209,9 @@ impl Minimiser<'_> {
                     }
                     let mut t = 0;
                     while t < s.facts.recs(k)[j].terms.len() {
+                        if self.exhausted() {
+                            break;
+                        }
                         let mut c = s.clone();
                         c.facts.recs_mut(k)[j].terms.remove(t);
                         if self.try_apply(&mut s, c) {
@@ -192,6 +226,9 @@ impl Minimiser<'_> {
             // terms (with dependants); never the two std roots unless the scenario already lacks them
             let ids: Vec<u32> = s.facts.terms.iter().map(|t| t.id).collect();
             for id in ids {
+                if self.exhausted() {
+                    break;
+                }
                 if (id == 1 || id == 118) && s.drop_terms.is_empty() && s.prop != "C15" {
                     continue;
                 }
@@ -213,6 +250,9 @@ impl Minimiser<'_> {
             // links
             let mut j = 0;
             while j < s.facts.isa.len() {
+                if self.exhausted() {
+                    break;
+                }
                 let mut c = s.clone();
                 c.facts.isa.remove(j);
                 if self.try_apply(&mut s, c) {
@@ -223,6 +263,9 @@ impl Minimiser<'_> {
             }
             // flags
             for j in 0..s.facts.terms.len() {
+                if self.exhausted() {
+                    break;
+                }
                 if s.facts.terms[j].obsolete || s.facts.terms[j].replacement.is_some() {
                     let mut c = s.clone();
                     c.facts.terms[j].obsolete = false;
@@ -232,6 +275,9 @@ impl Minimiser<'_> {
             }
             // canonical schedules
             for j in 0..s.replicas.len() {
+                if self.exhausted() {
+                    break;
+                }
                 let canon = canonicalised(&s.replicas[j]);
                 if canon != s.replicas[j] {
                     let mut c = s.clone();
@@ -270,9 +316,15 @@ impl Minimiser<'_> {
             // short names
             let mut c = s.clone();
             for t in &mut c.facts.terms {
+                if self.exhausted() {
+                    break;
+                }
                 t.name = format!("t{}", t.id);
             }
             for k in KINDS {
+                if self.exhausted() {
+                    break;
+                }
                 for r in c.facts.recs_mut(k) {
                     r.name = format!("{}{}", ["g", "o", "p"][k as usize], r.id);
                 }
@@ -281,6 +333,9 @@ impl Minimiser<'_> {
                 if !self.try_apply(&mut s, c) {
                     // one at a time
                     for j in 0..s.facts.terms.len() {
+                        if self.exhausted() {
+                            break;
+                        }
                         let short = format!("t{}", s.facts.terms[j].id);
                         if s.facts.terms[j].name != short {
                             let mut c = s.clone();
@@ -289,6 +344,9 @@ impl Minimiser<'_> {
                         }
                     }
                     for k in KINDS {
+                        if self.exhausted() {
+                            break;
+                        }
                         for j in 0..s.facts.recs(k).len() {
                             let short = format!("{}{}", ["g", "o", "p"][k as usize], s.facts.recs(k)[j].id);
                             if s.facts.recs(k)[j].name != short {
